@@ -30,7 +30,7 @@ func init() {
 	hx.Register(&hx.Prop{
 		ID:    "C06",
 		Level: "exploration",
-		Rule: "signed updates produced by SignEFIVariable under a harness-controlled clock: (names: 25 predefined, A, each of the 95 printable ASCII characters, a 64-character name) x payloads {empty bytes, empty database, 1 hash, 3 hashes, certificate list, raw 1/7/8/4096 bytes} x attribute masks {7, 0x27, 0x67}; " +
+		Rule: "signed updates produced by SignEFIVariable under a harness-controlled clock: (names: 25 predefined, A, each of the 95 printable ASCII characters, a 64-character name) x payloads {empty bytes, empty database, 1 hash, 3 hashes, certificate list, raw 1/7/8/4096/70000 bytes} x attribute masks {7, 0x27, 0x67}; " +
 			"all 256 attribute masks x 2 payloads; GUIDs {asymmetric A, asymmetric B, leading-zero fields}; keys RSA-2048 (RSA-4096 on a subset), self-signed and CA-issued (issuer != subject) certificates; clock instants {ordinary, 31 Dec 23:59:59, 29 Feb, DST change, year 2040} x zones {UTC, +09:00, -08:00, +05:45, +14:00, -12:00}. " +
 			"oracle: bytes 0-15 are the EFI_TIME of the instant in UTC with pad/nanosecond/timezone/daylight zero; dwLength = 24 + signature length; revision 0x0200; type 0x0EF1; PKCS7 type GUID in wire order; CertData is a bare SignedData; the rest equals the payload; " +
 			"an independent verifier accepts the detached SHA-256 signature over name(UTF-16LE, unterminated)||GUID||attributes||timestamp||payload and rejects each of: any component changed in one byte, terminator added, components reordered, component dropped; openssl smime -verify agrees on a subset. " +
@@ -70,7 +70,7 @@ func c06Payloads() []c06Payload {
 	out = append(out, c06Payload{"3-hashes", m, e})
 	m, e = mkdb([]refesl.List{refesl.Mk(refesl.X509, uint32(16+len(keys.C(1).Raw)), refesl.Entry{Owner: ownerB, Data: keys.C(1).Raw})})
 	out = append(out, c06Payload{"cert-list", m, e})
-	for _, n := range []int{1, 7, 8, 4096} {
+	for _, n := range []int{1, 7, 8, 4096, 70000} {
 		out = append(out, c06Payload{"raw-" + strconv.Itoa(n), rawval(fill(n, 0x6b)), fill(n, 0x6b)})
 	}
 	return out
